@@ -174,6 +174,12 @@ def judge(chk, pid, fs, kf_ids):
         # "the line of that file on which the conflicting declaration itself stands": any declaration of that name and
         # kind in the blamed file that takes part in the conflict (a type declared twice in ONE file conflicts on both lines)
         conflicts = {(c[0], c[1], c[2]) for c in fs.ideal["conflicts"]}
+        names = [f["name"] for f in fs.files]
+        if len(set(names)) < len(names):
+            # two list entries under one name: "the file containing the conflict" is not determined by a file name (DESIGN II.6b);
+            # such lists are judged by C07 / C12 only
+            chk.add("same_name_lists_outside_c16")
+            return
         for o in obs["outcomes"]:
             for e in o["errs"]:
                 k = (e["kind"], e["name"], e["file"])
